@@ -305,7 +305,8 @@ func (a cacheAsMap) Chain(int) []string              { return nil }
 func (a cacheAsMap) ChainKeys(int) [][]string        { return nil }
 func (a cacheAsMap) RootBuckets() int                { return a.c.Stats().RootBuckets }
 
-func bulkSpec(name string, kind int, hint int, seed uint64, n int, depth int) *SeqSpec {
+// collide: 0 = seeded well-spread hash, 1 = every key in one bucket chain, 4 = keys spread over 4 buckets only
+func bulkSpec(name string, kind int, hint int, seed uint64, n int, depth int, collide int) *SeqSpec {
 	cuts := []int{1, 72, 73, 74, 96, 97, 121, 145, 289, 577, n / 2, n}
 	var events []bulkEv
 	events = append(events, bulkEv{Kind: "probe"})
@@ -326,6 +327,16 @@ func bulkSpec(name string, kind int, hint int, seed uint64, n int, depth int) *S
 	}
 	return &SeqSpec{Name: name, Events: names, MaxDepth: depth, New: func() SeqInst {
 		installDetHash(seed)
+		if collide > 0 {
+			cf := func(k int) uint64 { return uint64(k%collide)<<7 | uint64(k%collide)<<50 | uint64(k/collide)%120 }
+			xsync.VerifHashString = func(s string, _ uint64) uint64 { return cf(keyIndex(s)) }
+			xsync.VerifHasher = func(zero interface{}) interface{} {
+				if _, ok := zero.(int); ok {
+					return func(k int, _ uint64) uint64 { return cf(k) }
+				}
+				return nil
+			}
+		}
 		var m MapLike
 		var opts []func(*xsync.MapConfig)
 		if hint != 0 {
@@ -388,8 +399,13 @@ func genC11(tier string) []*Scenario {
 					continue
 				}
 				name := fmt.Sprintf("C11/resize-histories/%s/hint=%d/seed=%d", bulkKinds[kind], hint, seed)
-				out = append(out, &Scenario{Name: name, Prop: "C11", Seq: bulkSpec(name, kind, hint, seed, n, depth), ExpectOutcomes: 2})
+				out = append(out, &Scenario{Name: name, Prop: "C11", Seq: bulkSpec(name, kind, hint, seed, n, depth, 0), ExpectOutcomes: 2})
 			}
+		}
+		// fully / heavily colliding hash functions: everything lives in 1 or 4 bucket chains, resizes copy long chains
+		for _, collide := range []int{1, 4} {
+			name := fmt.Sprintf("C11/resize-histories/%s/colliding-into-%d-chains", bulkKinds[kind], collide)
+			out = append(out, &Scenario{Name: name, Prop: "C11", Seq: bulkSpec(name, kind, 0, 1, 700, depth, collide), ExpectOutcomes: 2})
 		}
 	}
 	return out
